@@ -23,6 +23,7 @@ objects so they can be GCed
 import (
 	"fmt"
 	"os"
+	"reflect"
 	"runtime/debug"
 	"strings"
 
@@ -1051,6 +1052,32 @@ func do_LOAD_ATTR(vm *Vm, namei int32) error {
 	return vm.setTopAndCheckErr(py.GetAttrString(vm.TOP(), vm.frame.Code.Names[namei]))
 }
 
+// objectIs implements the identity test of the `is` operator.
+//
+// Comparing two interface values with == panics when their common
+// dynamic type is not comparable (py.Tuple and py.Bytes are slices,
+// py.StringDict is a map), so those are compared by the identity of
+// their backing store.
+func objectIs(a, b py.Object) bool {
+	va, vb := reflect.ValueOf(a), reflect.ValueOf(b)
+	if !va.IsValid() || !vb.IsValid() {
+		return !va.IsValid() && !vb.IsValid()
+	}
+	if va.Type() != vb.Type() {
+		return false
+	}
+	switch va.Kind() {
+	case reflect.Slice:
+		return va.Len() == vb.Len() && va.Pointer() == vb.Pointer()
+	case reflect.Map:
+		return va.Pointer() == vb.Pointer()
+	}
+	if !va.Type().Comparable() {
+		return false
+	}
+	return a == b
+}
+
 // Performs a Boolean operation. The operation name can be found in
 // cmp_op[opname].
 func do_COMPARE_OP(vm *Vm, opname int32) error {
@@ -1080,9 +1107,9 @@ func do_COMPARE_OP(vm *Vm, opname int32) error {
 		in, err = py.SequenceContains(b, a)
 		r = py.NewBool(!in)
 	case PyCmp_IS:
-		r = py.NewBool(a == b)
+		r = py.NewBool(objectIs(a, b))
 	case PyCmp_IS_NOT:
-		r = py.NewBool(a != b)
+		r = py.NewBool(!objectIs(a, b))
 	case PyCmp_EXC_MATCH:
 		if bTuple, ok := b.(py.Tuple); ok {
 			for _, exc := range bTuple {
